@@ -75,9 +75,31 @@ Definition group_consequence (s : sequence) : sequence :=
     else Sequence cs
   end.
 
+(* simplify.rs:272 ends_in_tail_call (added by the F19 repair, commit e176e48): a tail call, or a redundant
+   block (one that `keep` retained) whose body ends in one, looked through recursively:
+     match term { Term::Block(e) if is_redundant_block(term) => e.branches[0].condition.chains[0].terms.last()
+                                                                  .is_some_and(ends_in_tail_call),
+                  term => is_tail_call(term) } *)
+Fixpoint term_ends_in_tail_call (t : term) : bool :=
+  match t with
+  | Block (Expression [Branch (Sequence [Chain mp sp ts]) None]) =>
+      if is_inlinable_chain (Chain mp sp ts)
+      then (fix last_ends (l : list term) : bool :=
+              match l with
+              | [] => false
+              | x :: r => match r with [] => term_ends_in_tail_call x | _ :: _ => last_ends r end
+              end) ts
+      else false        (* is_tail_call (Block _) *)
+  | other => is_tail_call other
+  end.
+
 (* the `strip` decision of strip_chain (simplify.rs:94-104) for an already-simplified term *)
 Definition last_term (ts : list term) : option term := last (map Some ts) None.
+(* simplify.rs:95 `body.terms.last().is_some_and(ends_in_tail_call)` *)
 Definition ends_in_tail_call (body : chain) : bool :=
+  match last_term (chain_terms body) with Some t => term_ends_in_tail_call t | None => false end.
+(* the test as it was before the repair (simplify.rs@488e7e3:95 `body.terms.last().is_some_and(is_tail_call)`) *)
+Definition ends_in_tail_call_pre_repair (body : chain) : bool :=
   match last_term (chain_terms body) with Some t => is_tail_call t | None => false end.
 Definition should_strip (o : options) (t : term) (is_last : bool) : option (list term) :=
   match redundant_body t with
